@@ -122,6 +122,22 @@ def run(run, replay=None):
                      ('file', {}), ('meta', {'metadata': {'k': 'v'}, 'encoding': name}),
                      ('diff', {'content': rng.choice(PROBES).encode(name), 'encoding': name,
                                'line_endings': rng.choice([None, 'unix', 'dos'])})]
+            # content whose first bytes look like a byte-order mark although, in THIS codec, they are ordinary characters
+            for mark in (b'\xff\xfe', b'\xfe\xff', b'\xef\xbb\xbf', b'\xff\xfe\x00\x00', b'\x00\x00\xfe\xff'):
+                try:
+                    lk = mark.decode(name)
+                    if not lk or lk.encode(name) != mark or '\n' in lk or '\r' in lk:
+                        continue
+                except Exception:       # noqa
+                    continue
+                cat.note(lk)
+                calls += [('change', {}),
+                          ('preamble', {'text': lk + 'first\nsecond line\n', 'encoding': name, 'indent': 4,
+                                        'line_endings': rng.choice([None, 'unix', 'dos'])}),
+                          ('file', {}), ('meta', {'metadata': {'k': lk}, 'encoding': name}),
+                          ('diff', {'content': (lk + 'a\nb\n').encode(name), 'encoding': name})]
+                if rng.random() < 0.6:
+                    break
             tr, data, info = run_writer('w%d' % cid, name, calls, cat,
                                         {'order': False, 'bytes': False, 'read': True, 'scope': True})
             traces.append(tr)
